@@ -23,6 +23,11 @@ def _names(*specs):
 
 def _pair(rng, same_terms=False):
     s1, s2 = broadcastable_pair(rng)
+    if rng.random() < 0.2:
+        # operands built over different name tuples whose numeric and string order differ (q2 vs q10)
+        pa, pb = rng.sample([("q2",), ("q10",), ("q2", "q10"), ("q9", "q11"), ("q1", "q10")], 2)
+        return ({"poly": rand_poly(rng, shape=s1, pool=[-1, 0, 1, 2], names_pool=pa, maxterms=2)},
+                {"poly": rand_poly(rng, shape=s2, pool=[-1, 0, 1, 2], names_pool=pb, maxterms=2)})
     a = {"poly": rand_poly(rng, shape=s1, pool=[-1, 0, 0, 1, 2])}
     if rng.random() < 0.3:
         # near-equal operands: same exponents, coefficients differing in few places (ties at the top terms)
